@@ -515,8 +515,69 @@ def _rewrite_hoist(text, rw):
     return text[:toks[s0].start] + text[toks[e0].end:], 1
 
 
+def _rewrite_k1(text):
+    """K1: in the body of a `for` loop, a top-level statement `if COND { continue; }` followed by the statements
+    REST up to the end of the body becomes `if COND { } else { REST }` (`continue` skips the rest of the body, so
+    the control flow is the same).  Applies to every such statement of every unlabelled `for` loop of the text;
+    any other `continue` (in a match arm, nested deeper, labelled) is left alone.  Returns (text, count)."""
+    count = 0
+    while True:
+        toks = lex(text)
+        done = True
+        for li in _loops(toks, 0, len(toks)):
+            if toks[li].text != "for":
+                continue
+            lb = loop_body_brace(toks, li, len(toks))
+            if lb is None:
+                continue
+            le = match_close(toks, lb)
+            # walk the top-level statements of the body
+            i = lb + 1
+            while i < le:
+                t = toks[i]
+                if t.kind == "ident" and t.text == "if":
+                    tb = next_body_brace(toks, i + 1, le)
+                    if tb is None:
+                        break
+                    te = match_close(toks, tb)
+                    inner = [x.text for x in toks[tb + 1:te]]
+                    if inner == ["continue", ";"] and (te + 1 >= le or toks[te + 1].text != "else"):
+                        rest_start = toks[te].end
+                        rest_end = toks[le].start
+                        text = (text[:toks[tb].end] + " " + text[toks[te].start:toks[te].end] + " else {" +
+                                text[rest_start:rest_end] + "}\n" + text[rest_end:])
+                        count += 1
+                        done = False
+                        break
+                    # skip the whole if / else-if chain
+                    i = te + 1
+                    while i < le and toks[i].text == "else":
+                        nb = next_body_brace(toks, i + 1, le)
+                        if nb is None:
+                            break
+                        i = match_close(toks, nb) + 1
+                    continue
+                if t.kind == "punct" and t.text in _OPEN:
+                    i = match_close(toks, i) + 1
+                    continue
+                i += 1
+            if not done:
+                break
+        if done:
+            return text, count
+
+
 def apply_rewrites(text, rewrites, log):
     for rw in rewrites or []:
+        if rw.get("continue_guard"):
+            new, n = _rewrite_k1(text)
+            if n != rw.get("count", 1) and rw.get("count", 1) != -1:
+                raise VxError("lost anchor: rewrite K1 `if c { continue; }` matched %d times, expected %d"
+                              % (n, rw.get("count", 1)))
+            log.append({"id": rw.get("id", "K1"), "pattern": "if COND { continue; } REST  (top level of a for body)",
+                        "replace": "if COND { } else { REST }", "count": n, "why": rw.get("why", "")})
+            text = new
+            continue
         if rw.get("hoist_fn"):
             new, n = _rewrite_hoist(text, rw)
             if n != 1:
